@@ -3,7 +3,7 @@ NEXT Next
 CONSTANTS NMax = 3
   FloorFix = TRUE
   FlipFix = TRUE
-  RemSign = TRUE
-  Lvl = 2
+  RemSign = FALSE
+  Lvl = 0
 INVARIANTS AddRefines MulRefines CmpRefines DivRefines UnaryRefines
 CHECK_DEADLOCK FALSE
